@@ -32,9 +32,9 @@ func (c09) Probes() []string {
 }
 func (c09) Runs(tier string) int {
 	if tier == "thorough" {
-		return 6000
+		return 2500
 	}
-	return 160
+	return 400
 }
 
 func c09Opts(tier string) core.HistOpts {
